@@ -273,7 +273,7 @@ def run_case(model, ops, plus=True):
         log.writes.clear()
         res = R.apply_op(obj, op)
         snapi = impl.world.snap()
-        out += [-1] + res + [-5] + snapi + [-6] + R.dump_obj(obj)
+        out += [-1] + res + [-5, impl.world.now_ns] + snapi + [-6] + R.dump_obj(obj)
         snap = W.parse_snaps(snapi, 1)[0][0]
         if verdict is None:
             # (1) legal writes
